@@ -802,6 +802,14 @@ theorem inv_dbDel {H : Bytes → Nat} {s : State} (key : Key) (mask : List Bool)
       · rw [if_neg (fun hh => hm hh.2), if_pos hi, if_neg hm, hci hi]
     · rw [if_neg (fun hh => hi hh.1), if_neg hi]
 
+theorem inv_dbDelTx {H : Bytes → Nat} {s : State} (txid : Bytes) (mask : List Bool) (h : Inv H s) : Inv H (dbDelTx H s txid mask) := by
+  unfold dbDelTx
+  split
+  · exact h
+  · split
+    · exact inv_dbDel _ mask h
+    · exact h
+
 theorem rel_empty (cfg : Cfg) (H : Bytes → Nat) : Rel cfg H [] (fun _ => none) := by
   intro K
   simp only [aget, RelK]
@@ -865,11 +873,11 @@ theorem inv_step {H : Bytes → Nat} {s : State} (ev : Ev) (h : Inv H s) (ha : A
         simp only [hi, if_true, this]
         cases outAt r.outs i.2 <;> rfl
       · simp [hi]
-  | del key mask => exact inv_dbDel key mask h
-  | undoDel key n =>
+  | del txid mask => exact inv_dbDelTx txid mask h
+  | undoDel txid n =>
     simp only [step]
     by_cases hon : s.on = true
-    · rw [if_pos hon]; exact inv_dbDel key _ h
+    · rw [if_pos hon]; exact inv_dbDelTx txid _ h
     · rw [if_neg hon]
       exact ⟨wf_adel h.1, fun hon' => absurd hon' hon⟩
   | undoAdd r =>
@@ -1185,3 +1193,4 @@ theorem record_iff_nonempty {H : Bytes → Nat} {s : State} (a : Addr) (h : Inv 
     cases this
 
 end GocoinV.Proofs.C17
+
